@@ -80,7 +80,9 @@ CLAIMED = {
               'the same clauses judge TLC-validated traces of the real ModelRunner on exactly those inputs',
  'text': 'Run.tla models the per-scenario capture buffer and the real streams per switch; clauses C18.restored / no_leak / passthrough / report_exact / '
          'pass_silent / logging_restored hold on every behaviour and are judged on real runs whose steps and step hooks print unique markers to stdout, stderr '
-         'and logging under all 8 switch combinations, with outcomes incl. KeyboardInterrupt and hook errors.'},
+         'and logging under all 8 switch combinations, with outcomes incl. KeyboardInterrupt and hook errors; --logging-level / --logging-filter '
+         '(LogPass), --logging-clear-handlers and the user own root handler (ulog), a root level changed by before_all, >1000 records, --wip, '
+         'steps that leave replaced streams behind and nested execute_steps are modelled and driven as well.'},
     'C06': {'design_ref': 'DESIGN.md §7 C06',
  'note': 'Bounded as in the evidence; cells with angle brackets, unknown placeholders in tags and tag-unsafe cell values are outside the judged domain '
          '(statement silent).',
@@ -102,7 +104,9 @@ CLAIMED = {
  'text': "Select.tla defines Nearest(line) and puts the code's sorted-lines + bisect, collector, parse_features grouping, list-file parser and name selection "
          'next to it; TLC proves bisect == Nearest for EVERY line 0..last+3 of every layout of the bound, the union law, line 0 => all and the setup/teardown '
          'exemption; each layout is rendered to real files and parse_features / collect_feature_locations / Configuration(--name) are run for every line, '
-         'location multisets, list files and name patterns, judged by TLC against the definition.'},
+         'location multisets, list files and name patterns, judged by TLC against the definition; --name inside complete runs is modelled in Run.tla '
+         '(NameMatch: un-named scenarios / outlines are marked skipped and passed over, rows decide individually) and judged on the shared run stage as '
+         'C10.name_in_run.'},
     'C19': {'design_ref': 'DESIGN.md §7 C19',
  'note': "Custom negative prefixes start with 'not'; separators =, :, ==; disagreeing composite members and ignore_unknown_categories=False are recorded, not "
          'judged.',
